@@ -1,7 +1,9 @@
 /-
-C02 — clauses of the property that the unchanged tree violates: the full statement, its negation
-proved on a concrete run of the model, and the protocol line that replays the same run on the
-implementation (exported as `witnessLines` in Driver.lean, reported as KNOWN-FINDING).
+C02 — the two clauses of the property that the code violated before it was repaired. For each: the
+history, what the machine of `Model.lean` (the code as it is now) does with it, and what the same
+machine with the OLD effects did — the `…_old_code_fails` theorems, which show that the full-strength
+theorems of `Props.lean` are not vacuous. The protocol lines of the histories are replayed on the
+implementation on every run (corpus/C02/regress.txt).
 -/
 import CaddyModel.C02.Lemmas
 
@@ -21,118 +23,104 @@ structure Facts where
   cur : Option Gen
   next : Option Gen
   retiring : Option Gen
-  everRejected : Bool
   t0 : List Conn
   u0 : List Conn
   u0file : Bool
 deriving DecidableEq
 
 def factsOf (s : State) : Facts :=
-  ⟨s.zombies, s.phase, s.drained, s.cur.map Cfg.addrs, genOf s.cur, genOf s.next, genOf s.retiring, s.everRejected,
+  ⟨s.zombies, s.phase, s.drained, s.cur.map Cfg.addrs, genOf s.cur, genOf s.next, genOf s.retiring,
    connect s wT0, connect s wU0, (s.socks wU0).file⟩
 
-/-! ### a dropped unix socket is not closed — `C02 seq 0 0 u0;- - -` -/
+/-! ### a dropped unix socket, before and after the repair of `unixListener.Close` -/
 
-/-- load `[u0]`, then load a config without listeners -/
+/-- load `[u0]`, then load a config without listeners (`C02 seq 0 0 u0;- - -`, corpus/C02/regress.txt) -/
 def wDropSteps : List Step :=
   reloadSteps ⟨0, [wU0]⟩ none wSched ++ reloadSteps ⟨1, []⟩ (some ⟨0, [wU0]⟩) wSched
 
+/-- the code as it is now: the socket is gone -/
 theorem wDrop_facts : (run init wDropSteps).map factsOf
-    = some ⟨[], .idle, true, some [], some 1, none, some 0, false, [.refused], [.hangs], true⟩ := by decide
+    = some ⟨[], .idle, true, some [], some 1, none, some 0, [.refused], [.noent], false⟩ := by decide
 
-/-- Full statement: *after the reload has returned and the old configuration has drained, an address
-    that the new configuration dropped is closed* —
-    `∀ s a, Reach s → s.zombies = [] → settled s → (∀ c, s.cur = some c → a ∉ c.addrs) → closed s a`.
-    It fails for unix sockets, without any rejected load: `unixListener.Close` leaks the descriptor it
-    duplicates to learn the path and unlinks a name that is not the path; the socket stays in LISTEN,
-    connections are accepted by the kernel and never served, the file stays. -/
-theorem dropped_address_closed_full_fails :
-    ¬ (∀ (s : State) (a : Addr), Reach s → s.zombies = [] → settled s →
-        (∀ c, s.cur = some c → a ∉ c.addrs) → closed s a) := by
-  intro H
-  cases hr : run init wDropSteps with
-  | none => have := wDrop_facts; rw [hr] at this; cases this
-  | some s =>
-    have hf := wDrop_facts
-    rw [hr] at hf
-    simp only [Option.map_some, Option.some.injEq, factsOf, Facts.mk.injEq] at hf
-    obtain ⟨hz, hp, hd, hc, _, _, _, _, _, hcon, _⟩ := hf
-    have := H s wU0 (Reach.init.run _ _ hr) hz ⟨hp, hd⟩ (by
-      intro c hc'; rw [hc'] at hc; simp at hc; rw [hc]; simp)
-    unfold closed at this
-    rw [hcon] at this
-    rcases this with h | h <;> cases h
+/-- `unixListener.Close` at count 0 before the repair: it called `File()` to learn the path — which
+    duplicates the descriptor (never closed again: the socket stays in LISTEN) and whose `Name()` is
+    `"unix:<path>->"`, so the unlink failed and the file stayed -/
+def closeUnixOld (k : Sock) (h : Handle) : Sock :=
+  if k.ucnt ≤ 1 then
+    { pool := poolAfterClose k h, ucnt := 0, umap := none, file := k.file, leaks := k.leaks + 1, hs := k.hs.erase h }
+  else closeUnix k h
 
-/-! ### a config that was rejected keeps answering — `C02 seq 0 0 u0;!u0;u0 - -` (and F2) -/
+def closeSockOld (a : Addr) (k : Sock) (g : Gen) : Sock :=
+  match k.hs.find? (fun h => h.gen == g) with
+  | none => k
+  | some h => if a.unix then closeUnixOld k h else closeTcp k h
 
-/-- load `[u0]`; a load of `[u0]` that is rejected after its apps started (it reused the socket, so
-    `unixSockets` now points at its listener, which is closed when the rejected config is stopped);
-    then a load of `[t0, u0]`: t0 is bound, the reuse of u0 fails, the HTTP app's Start fails and
-    nobody closes t0. -/
-def wStaleSteps : List Step :=
+/-- `reuseUnixSocket` before the repair: the `unixSockets` entry was replaced by the newest duplicate -/
+def bindUnixOld (k : Sock) (g : Gen) : Sock :=
+  match k.umap with
+  | some _ => { k with ucnt := k.ucnt + 1, umap := some g, leaks := k.leaks + 1, hs := k.hs ++ [⟨g, .dup⟩] }
+  | none => bindUnix k g
+
+def bindSockOld (a : Addr) (k : Sock) (g : Gen) : Sock :=
+  if a.unix then bindUnixOld k g else bindTcp k g
+
+/-- … so it could point at a listener that is already closed -/
+def staleOld (k : Sock) : Bool :=
+  match k.umap with
+  | some g => !k.holds g
+  | none => false
+
+def enabledOld (s : State) : Step → Bool
+  | .bind a => bindable s a && !(a.unix && staleOld (s.socks a))
+  | .bindStale a => bindable s a && a.unix && staleOld (s.socks a)
+  | st => enabled s st
+
+def effOld (s : State) : Step → State
+  | .close g a => { s with socks := setSock s.socks a (closeSockOld a (s.socks a) g) }
+  | .bind a => { s with socks := setSock s.socks a (bindSockOld a (s.socks a) (nextGen s)), phase := .start }
+  | st => eff s st
+
+def runOld (s : State) : List Step → Option State
+  | [] => some s
+  | st :: rest => if enabledOld s st then runOld (effOld s st) rest else none
+
+/-- **Non-vacuity of `dropped_address_closed`: the old code violated it.**  The same history on the
+    machine with the old close: settled, nothing rejected, the new config does not list u0 — and a
+    connection to u0 is accepted by the kernel and never served, the file is still there. -/
+theorem dropped_address_closed_old_code_fails : (runOld init wDropSteps).map factsOf
+    = some ⟨[], .idle, true, some [], some 1, none, some 0, [.refused], [.hangs], true⟩ := by decide
+
+/-! ### a reload rejected after it had started, before and after the repair of `reuseUnixSocket` -/
+
+/-- load `[u0]`; a load of `[u0]` that is rejected after its apps started (it reused the socket; in the
+    old code `unixSockets` then pointed at its listener, which is the one closed when the rejected
+    config is stopped); then a load of `[t0, u0]` (`C02 seq 0 0 u0;!u0;t0,u0 - -`, corpus/C02/regress.txt) -/
+def wRejectedSteps : List Step :=
   reloadSteps ⟨0, [wU0]⟩ none wSched ++
-  [.begin ⟨1, [wU0]⟩, .bind wU0, .cb .started 1, .reject, .cb .stopping 1, .close 1 wU0, .cb .cleanup 1, .ret] ++
-  [.begin ⟨2, [wT0, wU0]⟩, .bind wT0, .bindStale wU0, .cb .cleanup 2, .ret]
+  [.begin ⟨1, [wU0]⟩, .bind wU0, .cb .started 1, .reject, .cb .stopping 1, .close 1 wU0, .cb .cleanup 1, .ret]
 
-theorem wStale_facts : (run init wStaleSteps).map factsOf
-    = some ⟨[2], .idle, true, some [wU0], some 0, none, none, true, [.answered 2], [.answered 0], true⟩ := by decide
+/-- the code as it is now: the third load is an ordinary reload -/
+theorem wRejected_facts :
+    (run init (wRejectedSteps ++ reloadSteps ⟨2, [wT0, wU0]⟩ (some ⟨0, [wU0]⟩) wSched)).map factsOf
+    = some ⟨[], .idle, true, some [wT0, wU0], some 2, none, some 0, [.answered 2], [.answered 2], true⟩ := by decide
 
-theorem connect_answered_mem {s : State} {a : Addr} {g : Gen} (h : connect s a = [.answered g]) : servers s a = [g] := by
-  unfold connect at h
-  split at h
-  · cases hl : (s.socks a).gens with
-    | nil => rw [hl] at h; cases h
-    | cons x rest =>
-      rw [hl] at h
-      cases rest with
-      | nil => simp at h; simp [servers, hl, h]
-      | cons y r => simp at h
-  · split at h
-    · cases h
-    · split at h
-      · cases h
-      · split at h <;> cases h
+/-- the old machine: t0 is bound, the reuse of u0 fails, the HTTP app's Start fails and nobody closes t0 -/
+def wStaleSteps : List Step :=
+  wRejectedSteps ++ [.begin ⟨2, [wT0, wU0]⟩, .bind wT0, .bindStale wU0, .cb .cleanup 2, .ret]
 
-/-- Full statement: *a new connection is answered by either the old or the new configuration* —
-    `∀ s a g, Reach s → g ∈ servers s a → alive s g` (no hypothesis on `zombies`).
-    It fails after a rejected load: config 2 was rejected, yet it answers on t0 for ever, an address
-    the running config does not even listen on (so the drained-state clauses fail as well). -/
-theorem served_by_old_or_new_full_fails :
-    ¬ (∀ (s : State) (a : Addr) (g : Gen), Reach s → g ∈ servers s a → alive s g) := by
-  intro H
-  cases hr : run init wStaleSteps with
-  | none => have := wStale_facts; rw [hr] at this; cases this
-  | some s =>
-    have hf := wStale_facts
-    rw [hr] at hf
-    simp only [Option.map_some, Option.some.injEq, factsOf, Facts.mk.injEq] at hf
-    obtain ⟨_, _, _, _, hc, hn, hre, _, ht, _, _⟩ := hf
-    have hs := connect_answered_mem ht
-    have := H s wT0 2 (Reach.init.run _ _ hr) (by rw [hs]; simp)
-    unfold alive at this
-    rw [hc, hn, hre] at this
-    rcases this with h | h | h <;> cases h
+/-- **Non-vacuity of `served_by_old_or_new`, `after_drain_only_new`, `dropped_address_has_no_listener`:
+    the old code violated them.**  After the history above on the old machine: settled, config 0 is
+    running (it lists u0 only), config 2 was rejected — and config 2 answers on t0, for ever
+    (`zombies = [2]`): answered by a config that is neither old nor new, on an address the running
+    config does not listen on. -/
+theorem served_by_old_or_new_old_code_fails : (runOld init wStaleSteps).map factsOf
+    = some ⟨[2], .idle, true, some [wU0], some 0, none, none, [.answered 2], [.answered 0], true⟩ := by decide
 
-/-- … and *after the drain only the new configuration answers / a dropped address is closed* fail in
-    the same state: settled, t0 not in the running config, a listener still open on it -/
-theorem after_drain_only_new_full_fails :
-    ¬ (∀ (s : State) (a : Addr), Reach s → settled s → (∀ c, s.cur = some c → a ∉ c.addrs) → servers s a = []) := by
-  intro H
-  cases hr : run init wStaleSteps with
-  | none => have := wStale_facts; rw [hr] at this; cases this
-  | some s =>
-    have hf := wStale_facts
-    rw [hr] at hf
-    simp only [Option.map_some, Option.some.injEq, factsOf, Facts.mk.injEq] at hf
-    obtain ⟨_, hp, hd, hc, _, _, _, _, ht, _, _⟩ := hf
-    have hs := connect_answered_mem ht
-    have := H s wT0 (Reach.init.run _ _ hr) ⟨hp, hd⟩ (by
-      intro c hc'; rw [hc'] at hc; simp at hc; rw [hc]; decide)
-    rw [hs] at this; cases this
-
-/-- the stale entry is what the model says the implementation hits: in the state before the third
-    load, `reuseUnixSocket` would duplicate a closed listener -/
-example : ((run init (wStaleSteps.take 14)).map fun s => ((s.socks wU0).stale, (s.socks wU0).umap, servers s wU0, s.everRejected))
-    = some (true, some 1, [0], true) := by decide
+/-- the stale entry itself: in the old machine's state before the third load, `reuseUnixSocket` would
+    duplicate a closed listener; the same history cannot even be written for the new machine, where the
+    failing `Listen` is never enabled -/
+example : ((runOld init wRejectedSteps).map fun s => (staleOld (s.socks wU0), (s.socks wU0).umap, (s.socks wU0).gens))
+    = some (true, some 1, [0]) := by decide
+example : (run init wStaleSteps).isNone = true := by decide
 
 end CaddyModel.C02
